@@ -219,13 +219,34 @@ def normal_form(text, allow_cfg=False):
             continue  # expression position, leave
         args = text[ob + 1:cb]
         am = m[ob + 1:cb]
-        code_args = ''.join(c for c, kk in zip(args, am) if kk == 'c')
-        if '[' in code_args or 'unwrap' in code_args or '..' in code_args or 'expect(' in code_args:
-            raise ExtractError("E4 refusal: logging argument may panic: %s" % re.sub(r'\s+', ' ', args)[:120])
-        spans.append((st, e))
-        drops['log_statements'].append(re.sub(r'\s+', ' ', text[st:e])[:100])
-    for st, e in reversed(spans):
-        text = text[:st] + text[e:]
+        # split at top-level commas (code positions only)
+        parts, cur, d = [], [], 0
+        for c, kk in zip(args, am):
+            if kk == 'c':
+                if c in '([{':
+                    d += 1
+                elif c in ')]}':
+                    d -= 1
+                elif c == ',' and d == 0:
+                    parts.append(''.join(cur))
+                    cur = []
+                    continue
+            cur.append(c)
+        if ''.join(cur).strip():
+            parts.append(''.join(cur))
+        keep = []
+        for a in parts[1:]:
+            a2 = a.strip()
+            if '=' in a2 and re.match(r'^[A-Za-z_][A-Za-z0-9_]*\s*=[^=]', a2):
+                a2 = a2.split('=', 1)[1].strip()
+            if re.match(r'^&?[A-Za-z_][A-Za-z0-9_.]*(\.len\(\))?$', a2):
+                continue  # a place expression or .len(): evaluation cannot panic
+            # E4b: anything else is kept as an evaluated let-binding so that its panic freedom stays an obligation
+            keep.append('let _log_arg = %s;' % a2)
+        spans.append((st, e, ' '.join(keep)))
+        drops['log_statements'].append(re.sub(r'\s+', ' ', text[st:e])[:100] + (' [arguments kept: %d]' % len(keep) if keep else ''))
+    for st, e, rep in reversed(spans):
+        text = text[:st] + rep + text[e:]
     # whitespace: drop trailing blanks and empty lines
     lines = [ln.rstrip() for ln in text.split('\n')]
     lines = [ln for ln in lines if ln.strip() != '']
